@@ -6,6 +6,8 @@ From Verif Require Import Model.Cursor Proofs.CursorProofs.
 (* translator tie: required here, imported where the source theorems start (coqdep reads Requires reliably only
    in the header, see harness/PYMINI.md) *)
 From Verif Require Base.PyValue Model.PyMini Model.PrimsApi Gen.SrcCursor Proofs.SrcCursor.
+(* group `column` (bld-misc): Column.__getitem__ with the subscript primitive, see the end of this file *)
+From Verif Require Model.PrimsColumn Gen.SrcColumn Proofs.SrcColumn.
 Open Scope Z_scope.
 
 (* For every row type, every earlier history (state c), every result R and every
@@ -244,3 +246,80 @@ Example C10_example :
   snd (run Z init [Execute [10; 20; 30]; FetchOne; NewIter; Cursor.Next 0; FetchMany (Some 5); FetchOne; RowNumber; RowCount])
   = [RNone; RRow 10; RInt 0; RRow 20; RRows [30]; RNone; RInt 3; RInt 3].
 Proof. reflexivity. Qed.
+
+(* ------------------------------------------------------------------ *)
+(* Group `column` (Gen/SrcColumn.v, regenerated on every run): Column.__getitem__ translated ALONE with the subscript
+   primitive, so that the SLICE branch `tuple(getter(self) for getter in self._vars[key])` has a meaning
+   (Model/PrimsColumn.v: a tuple subscripted with slice(a, b, c) is the model's py_slice; trusted).  For EVERY slice -
+   negative bounds, steps, reversed, out of range - the translated method returns ValueError for step 0 and otherwise the
+   tuple of exactly the items the model's [py_slice col_items] selects, in that order, leaving the object as it was.
+   [getters_give n h ks]: calling the j-th getter of Column._vars on the object gives the j-th item (name, type code,
+   None x 5); C10_source_getters derives it from the properties tied in group `cursor` (what operator.attrgetter means,
+   getters_ok) with h = hash(_type).  A slice branch that walks range(start, stop) instead (seeded C10-m4) is another
+   term and the obligation no longer checks. *)
+Import Verif.Model.PrimsColumn.
+
+Theorem C10_source_column_slice : forall (call_ref : nat -> list pv -> pv) (msg : string -> list pv -> pv)
+    (n h : pv) (ks : list nat) (flds : env) (a b c : option Z),
+  PyMini.lookup "_vars" flds = Some (PTuple (map PRef ks)) ->
+  Proofs.SrcColumn.getters_give call_ref n h ks ->
+  call_method call_ref (prim_column msg) Gen.SrcColumn.column_getitem flds [enc_slice a b c] =
+  match py_slice col_items a b c with
+  | None => Exc ValueError
+  | Some l => Ok (flds, PTuple (map (item_val n h) l))
+  end.
+Proof. exact Proofs.SrcColumn.column_slice_src. Qed.
+Print Assumptions C10_source_column_slice.
+
+(* the integer branch on the same term (the subscript primitive on a tuple and an int is PyMini's index_at) *)
+Theorem C10_source_column_index : forall (call_ref : nat -> list pv -> pv) (msg : string -> list pv -> pv)
+    (n h : pv) (ks : list nat) (flds : env) (i : Z),
+  PyMini.lookup "_vars" flds = Some (PTuple (map PRef ks)) ->
+  Proofs.SrcColumn.getters_give call_ref n h ks ->
+  call_method call_ref (prim_column msg) Gen.SrcColumn.column_getitem flds [PInt i] =
+  match py_index col_items i with
+  | None => Exc IndexError
+  | Some it => Ok (flds, item_val n h it)
+  end.
+Proof. exact Proofs.SrcColumn.column_index_src. Qed.
+Print Assumptions C10_source_column_index.
+
+Theorem C10_source_getters : forall (call_ref : nat -> list pv -> pv) (prim0 : string -> list pv -> PyMini.res pv)
+    (n t h : pv) (ks : list nat) (kH : nat),
+  ref_of Gen.SrcCursor.refs "builtins.hash" = Some kH ->
+  do_call call_ref (PRef kH) [t] = Ok h ->
+  getters_ok call_ref prim0 (cflds n t ks) ks ->
+  Proofs.SrcColumn.getters_give call_ref n h ks.
+Proof. exact Proofs.SrcColumn.getters_ok_give. Qed.
+Print Assumptions C10_source_getters.
+
+(* OBLIGATION on generated data: the live class resolves len / getitem to Column's own functions and iteration,
+   containment, reversed, index, count to the collections.abc.Sequence mix-ins (defined through __getitem__ and
+   __len__: trusted standard library), so iterating a description entry goes through the tied __getitem__.  A
+   hand-written Column.__iter__ (seeded C10-m8) changes the table. *)
+Theorem C10_source_column_protocol :
+  Gen.SrcColumn.column_protocol =
+  [("__len__", "beanquery.cursor.Column.__len__"); ("__getitem__", "beanquery.cursor.Column.__getitem__");
+   ("__iter__", "collections.abc.Sequence.__iter__"); ("__contains__", "collections.abc.Sequence.__contains__");
+   ("__reversed__", "collections.abc.Sequence.__reversed__"); ("index", "collections.abc.Sequence.index");
+   ("count", "collections.abc.Sequence.count")]%string.
+Proof. exact Proofs.SrcColumn.column_protocol_ok. Qed.
+Print Assumptions C10_source_column_protocol.
+
+(* Non-vacuity: getters 10..16 that answer 'x', 42 and None; col[-5:] , col[::2], col[::-3], col[::0], col[1] *)
+Example C10_source_column_slice_example :
+  let call_ref := fun (k : nat) (args : list pv) =>
+    match k with 10%nat => PStr "x" | 11%nat => PInt 42 | _ => PNone end in
+  let ks := [10; 11; 12; 13; 14; 15; 16]%nat in
+  let flds := [("_vars", PTuple (map PRef ks)); ("_name", PStr "x"); ("_type", PNone)]%string in
+  let pr := prim_column (fun _ _ => PNone) in
+  Proofs.SrcColumn.getters_give call_ref (PStr "x") (PInt 42) ks /\
+  call_method call_ref pr Gen.SrcColumn.column_getitem flds [enc_slice (Some (-5)) None None]
+    = Ok (flds, PTuple [PNone; PNone; PNone; PNone; PNone]) /\
+  call_method call_ref pr Gen.SrcColumn.column_getitem flds [enc_slice None None (Some 2)]
+    = Ok (flds, PTuple [PStr "x"; PNone; PNone; PNone]) /\
+  call_method call_ref pr Gen.SrcColumn.column_getitem flds [enc_slice None None (Some (-3))]
+    = Ok (flds, PTuple [PNone; PNone; PStr "x"]) /\
+  call_method call_ref pr Gen.SrcColumn.column_getitem flds [enc_slice None None (Some 0)] = Exc PyMini.ValueError /\
+  call_method call_ref pr Gen.SrcColumn.column_getitem flds [PInt 1] = Ok (flds, PInt 42).
+Proof. split; [repeat constructor|]. repeat split; vm_compute; reflexivity. Qed.
